@@ -659,8 +659,11 @@ def run_check(pid, tier="quick", seed=None, replay=None):
         evidence["assumptions"] = list(chk.get("assumptions", []))
         evidence["violations"] = violations
         evidence["wall_s"] = round(time.time() - t0, 2)
-        os.makedirs(os.path.join(VERIF, "evidence"), exist_ok=True)
-        with open(os.path.join(VERIF, "evidence", pid + ".json"), "w") as f:
+        # runs against another tree (VERIF_REPO set: agents' worktrees, seeded changes, the pre-fix tree) must not
+        # overwrite the evidence that describes /repo
+        evdir = os.path.join(VERIF, "evidence") if os.path.realpath(REPO) == "/repo" else os.path.join(BUILD, "evidence-alt")
+        os.makedirs(evdir, exist_ok=True)
+        with open(os.path.join(evdir, pid + ".json"), "w") as f:
             json.dump(evidence, f, indent=1, default=str)
         for l in out_lines:
             print(l)
